@@ -309,7 +309,7 @@ def run(ck):
     S = specs()
     # exact differential evaluation of every traced unit against the reference (supports the tie and
     # is the failing-input search when an obligation breaks)
-    trials = 4 if ck.quick else 40
+    trials = 8 if ck.quick else 40
     # the recorded function symbols (sqrt, log, abs, min, max, f) are interpreted by `fns` on both sides
     orig_eval = emit.evaluate
     emit.evaluate = lambda u, env, f=None: orig_eval(u, env, fns)
